@@ -63,6 +63,10 @@ unsafe impl GlobalAlloc for Tracking {
                 i = (i + 1) & (CAP - 1);
             }
         }
+        if ENABLED.load(Relaxed) && layout.size() > 0 {
+            // poison: a read through a dangling borrow returns 0xDD bytes, not the old contents
+            std::ptr::write_bytes(p, 0xDD, layout.size());
+        }
         System.dealloc(p, layout)
     }
 }
